@@ -1292,6 +1292,9 @@ class Interp:
         ov = getattr(o, 'overrides', None)
         if ov and name in ov:
             return self.call(ov[name], [], {})
+        mov = getattr(o, 'method_overrides', None)
+        if mov and name in mov:
+            return mov[name]          # an abstract (opaque) method: called by the code with its arguments
         # data descriptors / class attrs
         for k in o.cls.__mro__:
             if name in k.__dict__:
